@@ -78,10 +78,14 @@ func (g *Gen) call(fr *Frame, st *State, c *ssa.CallCommon, res ssa.Value) Val {
 			return g.freshOfType(st, "errstr", resT)
 		}
 		g.callAnchorsInvoke(fr, st, c, args)
+		var ret Val
 		if con := g.P.contracts[key]; con != nil {
-			return g.applyContract(fr, st, con, c.Method.Type().(*types.Signature), append([]Val{recv}, args...), true, resT, c.Method.Pkg(), key)
+			ret = g.applyContract(fr, st, con, c.Method.Type().(*types.Signature), append([]Val{recv}, args...), true, resT, c.Method.Pkg(), key)
+		} else {
+			ret = g.uncontracted(fr, st, c, args, resT, key)
 		}
-		return g.uncontracted(fr, st, c, args, resT, key)
+		g.callAnchorsAfterInvoke(fr, st, c, args, ret)
+		return ret
 	}
 	// closure or function value
 	var callee *ssa.Function
